@@ -29,6 +29,7 @@ import AstGrepVerif.Model.Rule
 import AstGrepVerif.Lemmas.RuleFuel
 import AstGrepVerif.Lemmas.TreeClosed
 import AstGrepVerif.Lemmas.AnB
+import AstGrepVerif.Lemmas.RuleTotal
 
 namespace AGV.C11
 
@@ -506,5 +507,71 @@ example : ∀ fuel, 26 ≤ fuel →
         (.all [.inside (.kind 1) .end_ none, .has (.not (.kind 9)) (.rule (.kind 3)) none] none) = 26 := by
       decide
     omega
+
+/-! ## with `matches`: termination over a registry whose FULL reference graph is acyclic
+
+The loader's cycle check only follows same-node references (`all`/`any`/`not`/`matches`/`ofRule`),
+and `updown_divergence` shows that this is not enough.  With the stronger, decidable hypothesis
+that the reference graph *through every operator* is ranked (`RegRanked`, `RegAcyclicAll`), the
+evaluator never runs out of fuel, for local and global utilities, with the explicit bound
+`costG (mcost …) …` (`Lemmas/RuleFuelReg.lean`, `Lemmas/RuleTotal.lean`). -/
+
+open AGV.RuleFuelReg in
+/-- **termination with utilities.**  `rank`: every utility refers only to utilities of smaller
+rank; `K`: the variable names of all patterns (the constraint loop of a global utility walks over
+the bound variables: `K.length` bounds their number); `PpK … (· = .fuel)`: the pattern matcher
+does not run out of *its* fuel (as `PatsOK` in `scan_terminates_partial`); global utilities
+without constraints (`rule_noFuel` is the general statement); references of `r` have rank below
+`Kr`; the caller's environment binds distinct names of `K`. -/
+theorem scan_terminates_registry (ctx : RCtx) (rank : Name → Nat) (hrank : RegRanked ctx rank)
+    (K : List Name) (hreg : RegPats ctx (PpK ctx (· = .fuel) K)) (hnc : NoConstraints ctx)
+    (Kr : Nat) (r : Rule) (hr : refsBelow rank Kr r = true)
+    (hp : PatsAll (PpK ctx (· = .fuel) K) r) (n : Tree) (hn : n ∈ ctx.root.preorder) (env : Env)
+    (henv : EnvK K env) (fuel : Nat)
+    (hf : costG (mcost ctx ctx.root.size K.length Kr) ctx.root.size r ≤ fuel) :
+    matchRule ctx fuel r n env ≠ .error .fuel :=
+  matchRule_noBad_document ctx (· = .fuel) rank hrank K hreg hnc Kr r hr hp n hn env henv fuel hf
+    .fuel rfl
+
+/-- a two-level registry over the three-node chain: the local `a := has(matches b, end)`,
+the local `b := kind 3`, the global `g := all [matches a, kind 1]` -/
+def regCtx : RCtx :=
+  { updownCtx with
+    locals := [(['a'], .has (.matches ['b']) .end_ none), (['b'], .kind 3)],
+    globals := [(['g'], { rule := .all [.matches ['a'], .kind 1] none })] }
+
+open AGV.RuleFuelReg in
+theorem regCtx_acyclic : RegAcyclicAll regCtx := by decide +kernel
+
+open AGV.RuleFuelReg in
+/-- non-vacuity: `inside(matches g, end)` from the leaf, with every fuel from the bound on -/
+theorem scan_terminates_registry_example :
+    ∀ fuel, 100 ≤ fuel →
+      matchRule regCtx fuel (.inside (.matches ['g']) .end_ none) leaf Env.empty ≠ .error .fuel := by
+  intro fuel hf
+  have hcost : costG (mcost regCtx regCtx.root.size ([] : List Name).length 3) regCtx.root.size
+      (.inside (.matches ['g']) .end_ none) ≤ 100 := by decide +kernel
+  refine scan_terminates_registry regCtx (regRank regCtx) regCtx_acyclic [] ?_ ?_ 3 _ (by decide +kernel)
+    ?_ leaf ?_ Env.empty (EnvK.empty []) fuel (by omega)
+  · refine ⟨fun id q h => ?_, fun id core h => ?_⟩
+    · simp only [regCtx, alookup] at h
+      split at h
+      · simp only [Option.some.injEq] at h; subst h; simp [PatsAll, PatsAllStop]
+      · split at h
+        · simp only [Option.some.injEq] at h; subst h; simp [PatsAll]
+        · cases h
+    · simp only [regCtx, alookup] at h
+      split at h
+      · simp only [Option.some.injEq] at h; subst h
+        exact ⟨by simp [PatsAll, PatsAllList], fun v m hv => by simp [alookup] at hv⟩
+      · cases h
+  · intro id core h
+    simp only [regCtx, alookup] at h
+    split at h
+    · simp only [Option.some.injEq] at h; subst h; rfl
+    · cases h
+  · simp [PatsAll, PatsAllStop]
+  · show leaf ∈ root3.preorder
+    simp [root3, mid, leaf, Tree.preorder, Tree.preorderList]
 
 end AGV.C11
